@@ -14,7 +14,10 @@ use duckscript::runner;
 use duckscript::types::command::{Command, CommandInvocationContext, CommandResult};
 use duckscript::types::error::ScriptError;
 use duckscript::types::instruction::{Instruction, InstructionType};
+use duckscript::types::env::Env;
 use std::cell::RefCell;
+use std::sync::atomic::{AtomicBool, Ordering};
+use std::sync::Arc;
 use std::fs;
 use std::io::{self, BufRead, Write};
 use std::panic;
@@ -41,7 +44,12 @@ impl Command for Emit {
         Box::new(self.clone())
     }
     fn run(&self, context: CommandInvocationContext) -> CommandResult {
-        EMITTED.with(|e| e.borrow_mut().push(enc_list(&context.arguments)));
+        EMITTED.with(|e| {
+            let mut e = e.borrow_mut();
+            if e.len() < 20000 {
+                e.push(enc_list(&context.arguments));
+            }
+        });
         CommandResult::Continue(Some(context.arguments.len().to_string()))
     }
 }
@@ -72,7 +80,12 @@ impl Command for OnError {
     fn run(&self, context: CommandInvocationContext) -> CommandResult {
         let a = &context.arguments;
         let g = |i: usize| a.get(i).cloned().unwrap_or_default();
-        ERRORS.with(|e| e.borrow_mut().push(format!("{}@{}@{}", enc_str(&g(0)), g(1), enc_str(&g(2)))));
+        ERRORS.with(|e| {
+            let mut e = e.borrow_mut();
+            if e.len() < 20000 {
+                e.push(format!("{}@{}@{}", enc_str(&g(0)), g(1), enc_str(&g(2))));
+            }
+        });
         CommandResult::Continue(None)
     }
 }
@@ -168,6 +181,32 @@ fn context() -> duckscript::types::runtime::Context {
     c
 }
 
+/// runs `f` with a halt flag that a watchdog sets after 3 s (a generated script never loops; a
+/// looping one must not take the machine down); returns TIMEOUT when the watchdog fired
+fn guarded<F: FnOnce(Env) -> Result<duckscript::types::runtime::Context, ScriptError>>(f: F) -> String {
+    let halt = Arc::new(AtomicBool::new(false));
+    let done = Arc::new(AtomicBool::new(false));
+    let (h2, d2) = (halt.clone(), done.clone());
+    let t = std::thread::spawn(move || {
+        for _ in 0..300 {
+            if d2.load(Ordering::SeqCst) {
+                return;
+            }
+            std::thread::sleep(std::time::Duration::from_millis(10));
+        }
+        h2.store(true, Ordering::SeqCst);
+    });
+    let r = f(Env::new(None, None, Some(halt.clone())));
+    done.store(true, Ordering::SeqCst);
+    let _ = t.join();
+    let s = summary(r);
+    if halt.load(Ordering::SeqCst) {
+        "TIMEOUT|||".to_string()
+    } else {
+        s
+    }
+}
+
 fn summary(r: Result<duckscript::types::runtime::Context, ScriptError>) -> String {
     let emitted = EMITTED.with(|e| e.borrow_mut().drain(..).collect::<Vec<_>>().join(","));
     let errors = ERRORS.with(|e| e.borrow_mut().drain(..).collect::<Vec<_>>().join(","));
@@ -203,8 +242,8 @@ fn handle(f: &[&str]) -> String {
                 }
             } else {
                 let text = dec_str(f[4]);
-                let a = summary(runner::run_script_file(&main, context(), None));
-                let b = summary(runner::run_script(&text, context(), None));
+                let a = guarded(|env| runner::run_script_file(&main, context(), Some(env)));
+                let b = guarded(|env| runner::run_script(&text, context(), Some(env)));
                 format!("{}\t{}", a, b)
             };
             out
